@@ -255,6 +255,56 @@ theorem add_error_order {U : Tx → Prop} (hw : WF U) {mp : Pool} (hi : Inv U mp
     (addChecks mp t feer d).map (fun c => some c.1) = Generated.MempoolAdd.errOrder.map errOfName :=
   ⟨Mempool.add_error_order hw hi ht feer hF d, addChecks_order mp t feer d⟩
 
+/-! ## 12. The exact outcome of a successful `Add`, related transactions included -/
+
+/-- For EVERY successful `Add` on a pool satisfying the invariant (hence on every reachable pool): let `L` be the
+old list without the transactions related to `t` (those naming `t` or named by `t` in a Conflicts attribute, and
+the pooled response to the same oracle request). The new list is `L` - without its last item if `L` still fills
+the pool - with `t` inserted at the index `Add` computes on `L`. -/
+theorem add_exact_list {U : Tx → Prop} (hw : WF U) {mp : Pool} (hi : Inv U mp) {t : Tx} (ht : U t) (feer : Feer)
+    (hF : FeerOk feer) {d : Nat} {mp' : Pool} (h : add mp t feer d = (mp', none)) :
+    ∃ L : List Tx, L.Sublist mp.txs ∧ (∀ x ∈ mp.txs, x ∈ L ↔ ¬ Related t x) ∧
+      mp'.txs = (if L.length = mp.capacity then L.dropLast else L).take (insertIdx L t) ++ [t] ++
+        (if L.length = mp.capacity then L.dropLast else L).drop (insertIdx L t) := by
+  obtain ⟨_, _, _, _, _, _, h7⟩ := (add_spec hw hi ht feer hF d).2 mp' h
+  exact h7
+
+/-- ... so a transaction that disappears without being related to `t` is THE last item of what the conflict
+resolution left, and that remainder filled the pool: `Add` evicts at most one unrelated transaction, the
+lowest-priority one, and only from a full pool - whatever else the same call replaces. -/
+theorem evicts_exactly_last {U : Tx → Prop} (hw : WF U) {mp : Pool} (hi : Inv U mp) {t : Tx} (ht : U t) (feer : Feer)
+    (hF : FeerOk feer) {d : Nat} {mp' : Pool} (h : add mp t feer d = (mp', none)) :
+    ∃ L : List Tx, L.Sublist mp.txs ∧ (∀ x ∈ mp.txs, x ∈ L ↔ ¬ Related t x) ∧
+      ∀ x ∈ mp.txs, x ∉ mp'.txs → ¬ Related t x → L.length = mp.capacity ∧ L.getLast? = some x := by
+  obtain ⟨L, h1, h2, h3⟩ := add_exact_list hw hi ht feer hF h
+  refine ⟨L, h1, h2, ?_⟩
+  intro x hx hnx hnr
+  have hxl : x ∈ L := (h2 x hx).mpr hnr
+  have hall : ∀ (B : List Tx), x ∈ B → x ∈ B.take (insertIdx L t) ++ [t] ++ B.drop (insertIdx L t) := by
+    intro B hb
+    have : x ∈ B.take (insertIdx L t) ++ B.drop (insertIdx L t) := by rw [List.take_append_drop]; exact hb
+    rcases List.mem_append.mp this with h' | h'
+    · exact List.mem_append.mpr (Or.inl (List.mem_append.mpr (Or.inl h')))
+    · exact List.mem_append.mpr (Or.inr h')
+  by_cases hfull : L.length = mp.capacity
+  · refine ⟨hfull, ?_⟩
+    rw [if_pos hfull] at h3
+    have hnd : x ∉ L.dropLast := fun hd => hnx (by rw [h3]; exact hall _ hd)
+    have hne : L ≠ [] := by intro e; rw [e] at hxl; cases hxl
+    obtain ⟨u, hu⟩ : ∃ u, L.getLast? = some u := by
+      cases hg : L.getLast? with
+      | none => exact absurd (List.getLast?_eq_none_iff.mp hg) hne
+      | some u => exact ⟨u, rfl⟩
+    obtain ⟨base, hbase⟩ := List.getLast?_eq_some_iff.mp hu
+    rw [hu]
+    rw [hbase, List.dropLast_concat] at hnd
+    rw [hbase] at hxl
+    rcases List.mem_append.mp hxl with h' | h'
+    · exact absurd h' hnd
+    · rw [List.mem_singleton.mp h']
+  · rw [if_neg hfull] at h3
+    exact absurd (by rw [h3]; exact hall _ hxl) hnx
+
 /-! ## Non-vacuity -/
 
 section Examples
@@ -340,6 +390,15 @@ example : ((Conf.init 2 [[.add a0 F, .add c0 F], [.add b0 F, .remove 0]]).exec [
 def o7 : Tx := { id := 51, sysFee := 0, netFee := 300, size := 100, signers := [9], high := false, conflicts := [], oracle := some 7 }
 example : let mp := run 3 [.add c0 F]
     (cFunds mp o7 F, cOracle mp o7, (add mp o7 F 0).2) = (true, true, some .funds) := by decide
+
+-- add_exact_list / evicts_exactly_last: capacity 3, pool [c0 (oracle 7), a0, b0] full; c1 conflicts with a0 and answers request 7 with a
+-- higher fee: L = [b0] (a0 and c0 are related), nothing unrelated is evicted
+example : ((add (run 3 [.add a0 F, .add b0 F, .add c0 F]) c1 F 0).1.txs.map (·.id), (add (run 3 [.add a0 F, .add b0 F, .add c0 F]) c1 F 0).2)
+    = ([4, 1], none) := by decide
+example : Related c1 a0 ∧ Related c1 c0 ∧ ¬ Related c1 b0 := by
+  refine ⟨Or.inr (Or.inl (by decide)), Or.inr (Or.inr ⟨by decide, by decide⟩), ?_⟩
+  rintro (h | h | ⟨h, _⟩) <;> revert h <;> decide
+
 
 end Examples
 
